@@ -118,6 +118,18 @@ def cat_segs(sl):
                 out[-1] = (p[0], p[1], p[2] + s[2])
                 continue
         out.append(s)
+        # re-join slices of one modular sum that were narrowed separately: (add_k)[lo:k] preceded by the top bits of
+        # the same sum narrowed to lo bits is one slice of add_k
+        while len(out) >= 2 and out[-1][0] != 'c' and out[-2][0] != 'c':
+            B = node(out[-1][0])
+            lo, ln = out[-1][1], out[-1][2]
+            if B.k != 'add' or lo == 0 or lo + ln != B.w:
+                break
+            top = segs(narrow_add(B, lo))[-1]
+            q = out[-2]
+            if top[0] == 'c' or q[0] != top[0] or q[1] + q[2] != top[1] + top[2] or q[1] < top[1]:
+                break
+            out[-2:] = [(B.id, lo - q[2], ln + q[2])]
     w = sum(s[2] for s in out)
     assert w > 0
     if len(out) == 1:
